@@ -3,6 +3,12 @@ From Coq Require Import Lia.
 From IV Require Import Base.Bytes Gen.LifecyclePins Model.Lifecycle Model.LifecycleAsm.
 Local Open Scope nat_scope.
 
+Lemma comp_eq_dec_asm (a b : comp) : {a = b} + {a <> b}.
+Proof. decide equality. Qed.
+
+Lemma phase_set_other_asm y c p c0 : c0 <> c -> phase_of (set_phase y c p) c0 = phase_of y c0.
+Proof. destruct c, c0; intros N; try reflexivity; congruence. Qed.
+
 (** * Shutdown terminates *)
 
 Lemma rstep_twice n r : rstep true n (rstep true n r) = RStopped.
@@ -49,61 +55,141 @@ Proof.
     destruct (wait_ok y w); [|discriminate]. inversion E; subst; reflexivity.
 Qed.
 
-(** main() gets through all its remaining waits once the scanner has stopped. *)
+(** main() gets through all its remaining waits once the scanner has stopped and both accept loops
+    have exited (or never ran). *)
 Lemma main_finishes sh e : forall todo y,
-  a_cancel y = true -> a_ret y = Some RStopped -> a_todo y = todo ->
-  exists y', arun sh e y (map (fun _ => XMain) todo) = Some y' /\ a_todo y' = [] /\ a_ret y' = Some RStopped.
+  a_cancel y = true -> a_ret y = Some RStopped ->
+  loop_counted (p_smtp y) = false -> loop_counted (p_pop3 y) = false -> a_todo y = todo ->
+  exists y', arun sh e y (map (fun _ => XMain) todo) = Some y' /\ a_todo y' = [].
 Proof.
-  induction todo as [|w t IH]; intros y C R T; cbn [map arun].
+  induction todo as [|w t IH]; intros y C R LS LP T; cbn [map arun].
   - exists y. auto.
   - cbn [astep]. rewrite C, T.
-    assert (wait_ok y w = true) as -> by (destruct w; cbn [wait_ok]; rewrite ?R; reflexivity).
+    assert (wait_ok y w = true) as -> by (destruct w; cbn [wait_ok]; rewrite ?R, ?LS, ?LP; reflexivity).
     apply IH; reflexivity || assumption.
 Qed.
 
+(** What it takes to bring one listening server to rest after cancel: let its Start get as far as
+    it gets (bind or fail; report ready), then close its listener — the accept loop exits. *)
+Definition rest_acts (e : env) (y : asys) (c : comp) : list aact :=
+  match phase_of y c with
+  | BInit => if fails e c then [XBind c] else [XBind c; XReadyCall c; XClose c]
+  | BBound => [XReadyCall c; XClose c]
+  | BReady => [XClose c]
+  | _ => []
+  end.
+
+Lemma rest_one sh e y c : a_cancel y = true ->
+  exists y', arun sh e y (rest_acts e y c) = Some y' /\ loop_counted (phase_of y' c) = false /\
+             (forall c0, c0 <> c -> phase_of y' c0 = phase_of y c0) /\
+             a_cancel y' = true /\ a_ret y' = a_ret y /\ a_todo y' = a_todo y.
+Proof.
+  intros C. unfold rest_acts.
+  destruct c; cbn [phase_of];
+    [destruct (p_web y) eqn:P | destruct (p_smtp y) eqn:P | destruct (p_pop3 y) eqn:P];
+    try (destruct (fails e _) eqn:F);
+    cbn [arun astep phase_of set_phase p_web p_smtp p_pop3 a_cancel a_ret a_todo]; rewrite ?P, ?F, ?C;
+    cbn [arun astep phase_of set_phase p_web p_smtp p_pop3 a_cancel a_ret a_todo]; rewrite ?C;
+    cbn [arun astep phase_of set_phase p_web p_smtp p_pop3 a_cancel a_ret a_todo];
+    eexists; (split; [reflexivity|]); cbn [phase_of p_web p_smtp p_pop3 a_cancel a_ret a_todo loop_counted];
+    rewrite ?P; repeat split; auto; intros c0 N; destruct c0; cbn; congruence.
+Qed.
+
+Lemma arun_app sh e a : forall y b, arun sh e y (a ++ b) = match arun sh e y a with Some y1 => arun sh e y1 b | None => None end.
+Proof.
+  induction a as [|x t IH]; intros y b; cbn [app arun]; auto. destruct (astep sh e y x); auto.
+Qed.
+
 (** From EVERY state that any schedule can reach — whichever listeners failed to bind, whatever
-    has or has not happened yet — once main() has cancelled, the scanner goroutine's next two
-    steps and then main()'s remaining waits are all enabled, in this order, and main() is done:
-    no wait of the shutdown sequence can be blocked for ever. *)
+    has or has not happened yet — once main() has cancelled there is a continuation (each server's
+    Start gets to its end and closes its listener, the scanner goroutine takes two steps, then
+    main()'s remaining waits in order) all of whose steps are enabled and after which main() is
+    done: no wait of the shutdown sequence can be blocked for ever. *)
+Definition finish_acts (e : env) (y : asys) : list aact :=
+  let a1 := rest_acts e y CSmtp in
+  a1 ++ rest_acts e y CPop3 ++ [XRet 0; XRet 0] ++ map (fun _ => XMain) (a_todo y).
+
 Theorem shutdown_terminates_gen :
   forall sh e ren acts y,
     sh_ret sh = true ->
     arun sh e (asm_init sh ren) acts = Some y -> a_cancel y = true ->
-    exists y', arun sh e y ([XRet 0; XRet 0] ++ map (fun _ => XMain) (a_todo y)) = Some y' /\ a_todo y' = [].
+    exists y', arun sh e y (finish_acts e y) = Some y' /\ a_todo y' = [].
 Proof.
   intros sh e ren acts y SR R C.
   assert (NE : a_ret y <> None).
   { eapply ret_exists_run; [exact R|]. cbn [asm_init a_ret]. rewrite SR. discriminate. }
-  destruct (a_ret y) as [r|] eqn:Er; [|congruence].
-  cbn [app arun astep]. rewrite Er. cbn [a_ret a_cancel]. rewrite C. cbn [a_ret]. rewrite rstep_twice.
-  set (y2 := mkA _ _ _ _ _ _ _ _ _ _).
-  destruct (main_finishes sh e (a_todo y) y2) as (y' & R' & T' & _); try reflexivity.
+  unfold finish_acts.
+  destruct (rest_one sh e y CSmtp C) as (y1 & R1 & L1 & O1 & C1 & Rt1 & T1).
+  destruct (rest_one sh e y1 CPop3 C1) as (y2 & R2 & L2 & O2 & C2 & Rt2 & T2).
+  assert (RA : rest_acts e y1 CPop3 = rest_acts e y CPop3).
+  { unfold rest_acts. rewrite (O1 CPop3) by discriminate. reflexivity. }
+  rewrite arun_app, R1, arun_app, <- RA, R2.
+  destruct (a_ret y2) as [r|] eqn:Er; [|congruence].
+  cbn [app arun astep]. rewrite Er. cbn [a_ret a_cancel]. rewrite C2. cbn [a_ret]. rewrite rstep_twice.
+  set (y3 := mkA _ _ _ _ _ _ _ _ _ _).
+  assert (H1 : a_cancel y3 = true) by reflexivity.
+  assert (H2 : a_ret y3 = Some RStopped) by reflexivity.
+  assert (H3 : loop_counted (p_smtp y3) = false).
+  { cbn. change (loop_counted (phase_of y2 CSmtp) = false). rewrite (O2 CSmtp) by discriminate. exact L1. }
+  assert (H4 : loop_counted (p_pop3 y3) = false) by (cbn; exact L2).
+  assert (H5 : a_todo y3 = a_todo y) by (cbn; congruence).
+  destruct (main_finishes sh e (a_todo y) y3 H1 H2 H3 H4 H5) as (y' & R' & T').
   exists y'. auto.
 Qed.
 
 Theorem shutdown_terminates :
   forall e ren acts y,
     arun pinned_shape e (asm_init pinned_shape ren) acts = Some y -> a_cancel y = true ->
-    exists y', arun pinned_shape e y ([XRet 0; XRet 0] ++ map (fun _ => XMain) (a_todo y)) = Some y' /\ a_todo y' = [].
+    exists y', arun pinned_shape e y (finish_acts e y) = Some y' /\ a_todo y' = [].
 Proof. intros. eapply shutdown_terminates_gen; eauto. Qed.
 
-(** A wait that has become possible stays possible, whatever else happens. *)
+(** A wait that has become possible stays possible, whatever else happens — provided, for a Drain,
+    that the server's Start has at least begun (a Drain called before Start has bound the listener
+    finds an empty WaitGroup; that is start-up, not shutdown). *)
+Definition wait_settled (y : asys) (w : wait) : Prop :=
+  match w with
+  | WSmtpDrain => p_smtp y <> BInit
+  | WPop3Drain => p_pop3 y <> BInit
+  | WRetJoin => True
+  end.
+
 Theorem wait_stays_enabled :
-  forall sh e y a y' w, astep sh e y a = Some y' -> wait_ok y w = true -> wait_ok y' w = true.
+  forall sh e y a y' w, astep sh e y a = Some y' -> wait_ok y w = true -> wait_settled y w ->
+    wait_ok y' w = true /\ wait_settled y' w.
 Proof.
-  intros sh e y a y' w E H. destruct w; try reflexivity. cbn [wait_ok] in *.
-  destruct (a_ret y) as [[]|] eqn:R; try discriminate.
-  destruct a; cbn [astep] in E.
-  - destruct (phase_of y c); try discriminate. inversion E; subst. destruct c; cbn; rewrite R; reflexivity.
-  - destruct (phase_of y c); try discriminate. inversion E; subst. cbn. rewrite R. reflexivity.
-  - destruct (sh_waiter sh && Nat.eqb (a_ready y) 0 && negb (a_readycalled y)); [|discriminate]. inversion E; subst; cbn; rewrite R; reflexivity.
-  - destruct (phase_of y c); try discriminate. destruct (a_notified y); [discriminate|]. inversion E; subst; cbn; rewrite R; reflexivity.
-  - destruct (a_cancel y); [discriminate|]. inversion E; subst; cbn; rewrite R; reflexivity.
-  - destruct (phase_of y c); try discriminate. destruct (a_cancel y); [|discriminate]. inversion E; subst. destruct c; cbn; rewrite R; reflexivity.
-  - destruct (a_cancel y && sh_hub sh); [|discriminate]. inversion E; subst; cbn; rewrite R; reflexivity.
-  - rewrite R in E. inversion E; subst. reflexivity.
-  - destruct (a_cancel y); [|discriminate]. destruct (a_todo y) as [|w t]; [discriminate|].
-    destruct (wait_ok y w); [|discriminate]. inversion E; subst; cbn; rewrite R; reflexivity.
+  intros sh e y a y' w E H S.
+  assert (G : forall c, loop_counted (phase_of y c) = false -> phase_of y c <> BInit ->
+                        loop_counted (phase_of y' c) = false /\ phase_of y' c <> BInit).
+  { intros c L N. destruct a; cbn [astep] in E.
+    - destruct (phase_of y c0) eqn:P; try discriminate. inversion E; subst y'.
+      destruct (comp_eq_dec_asm c c0) as [->|X]; [congruence|]. rewrite phase_set_other_asm by auto. auto.
+    - destruct (phase_of y c0) eqn:P; try discriminate. inversion E; subst y'.
+      change (loop_counted (phase_of (set_phase y c0 BReady) c) = false /\ phase_of (set_phase y c0 BReady) c <> BInit).
+      destruct (comp_eq_dec_asm c c0) as [->|X]; [rewrite P in L; discriminate|]. rewrite phase_set_other_asm by auto. auto.
+    - destruct (sh_waiter sh && Nat.eqb (a_ready y) 0 && negb (a_readycalled y)); [|discriminate]. inversion E; subst. destruct c; auto.
+    - destruct (phase_of y c0); try discriminate. destruct (a_notified y); [discriminate|]. inversion E; subst. destruct c; auto.
+    - destruct (a_cancel y); [discriminate|]. inversion E; subst. destruct c; auto.
+    - destruct (phase_of y c0) eqn:P; try discriminate. destruct (a_cancel y); [|discriminate]. inversion E; subst y'.
+      destruct (comp_eq_dec_asm c c0) as [->|X]; [rewrite P in L; discriminate|]. rewrite phase_set_other_asm by auto. auto.
+    - destruct (a_cancel y && sh_hub sh); [|discriminate]. inversion E; subst. destruct c; auto.
+    - destruct (a_ret y); [|discriminate]. inversion E; subst. destruct c; auto.
+    - destruct (a_cancel y); [|discriminate]. destruct (a_todo y) as [|w0 t]; [discriminate|].
+      destruct (wait_ok y w0); [|discriminate]. inversion E; subst. destruct c; auto. }
+  destruct w; cbn [wait_ok wait_settled] in *.
+  - apply Bool.negb_true_iff in H. destruct (G CSmtp H S) as [A B]. cbn [phase_of] in A, B. rewrite A. auto.
+  - apply Bool.negb_true_iff in H. destruct (G CPop3 H S) as [A B]. cbn [phase_of] in A, B. rewrite A. auto.
+  - split; auto. destruct (a_ret y) as [[]|] eqn:R; try discriminate.
+    destruct a; cbn [astep] in E.
+    + destruct (phase_of y c); try discriminate. inversion E; subst. destruct c; cbn; rewrite R; reflexivity.
+    + destruct (phase_of y c); try discriminate. inversion E; subst. cbn. rewrite R. reflexivity.
+    + destruct (sh_waiter sh && Nat.eqb (a_ready y) 0 && negb (a_readycalled y)); [|discriminate]. inversion E; subst; cbn; rewrite R; reflexivity.
+    + destruct (phase_of y c); try discriminate. destruct (a_notified y); [discriminate|]. inversion E; subst; cbn; rewrite R; reflexivity.
+    + destruct (a_cancel y); [discriminate|]. inversion E; subst; cbn; rewrite R; reflexivity.
+    + destruct (phase_of y c); try discriminate. destruct (a_cancel y); [|discriminate]. inversion E; subst. destruct c; cbn; rewrite R; reflexivity.
+    + destruct (a_cancel y && sh_hub sh); [|discriminate]. inversion E; subst; cbn; rewrite R; reflexivity.
+    + rewrite R in E. inversion E; subst. reflexivity.
+    + destruct (a_cancel y); [|discriminate]. destruct (a_todo y) as [|w t]; [discriminate|].
+      destruct (wait_ok y w); [|discriminate]. inversion E; subst; cbn; rewrite R; reflexivity.
 Qed.
 
 (** * readyFunc is called iff all listeners bound *)
